@@ -124,10 +124,12 @@ var All = []*Prop{
 	},
 	{
 		ID:    "C16",
-		Rules: []*core.Rule{rules.InstrImmut, rules.InstrAlias, rules.PrimImmut, rules.Globals, rules.XRuntime},
+		Rules: []*core.Rule{rules.InstrImmut, rules.InstrAlias, rules.InstrEscape, rules.PrimImmut, rules.LazySync, rules.Globals, rules.XRuntime},
 		Explanation: "Sharing is race-free iff shared memory is never written after publication or is synchronised. " +
 			"R-INSTRIMMUT: none of the ~260 exec(*vm) methods of types implementing `instruction` stores to memory reached through its receiver (access-path analysis: FieldAddr/IndexAddr/load chains; through pointers, slices, maps), directly or through a statically called function (writes-through-parameter summary, least fixed point). " +
 			"R-INSTRALIAS: Program-owned reference data handed to runtime-owned mutable state is copied first (names maps are shared only on the !extensible edge with a fresh map on the other; regexp literals go through clone(); every clone() returns a fresh allocation on every path). " +
+			"R-INSTRESCAPE: no []Value or *valueProperty held in an instruction becomes the storage of a runtime object (stored into memory not rooted at the receiver, or passed to a module function that keeps the reference) without being copied. " +
+			"R-LAZYSYNC: every access of importedString.u outside scan() is ordered after the lazy scan (ensureScanned() on the same string or scanned.Load() == true on every path, or a string allocated in the same function) - no semantic exceptions, an unsynchronised read is a race even when both outcomes agree. " +
 			"R-PRIMIMMUT: no method of a primitive Value type writes through its receiver, except inside a function that is only ever run by the receiver's own sync.Once. " +
 			"R-GLOBALS: every package-level variable written outside package initialisation is written only under a package-level sync.Once / mutex (or in the audited profiler control API). " +
 			"R-XRUNTIME: ToValue and every valueContainer.toValue compare the object's runtime with the receiving Runtime and panic on mismatch (or route through ToValue).",
